@@ -64,21 +64,7 @@ theorem stats_tiles_read_suffice (bands : List (Nat → Nat → Bool)) (b : Nat 
       exact absurd (no_valid_pixel_skipped bands tiles1 tilesB b hb r c hv t1 t ht1 h1 ht hc) hnot
   unfold tilesRead at key ⊢
   cases hw : dataWindow (anyBand bands) tiles1 with
-  | none =>
-    simp only [hw] at key
-    simp only [List.map_nil, List.foldl_nil]
-    -- nothing is read: every tile is empty
-    have : ∀ t ∈ tilesB, tileAcc th (tileVals b val t) = PAcc.zero := by
-      intro t ht
-      rw [key t ht (by simp)]
-      rfl
-    clear key
-    induction tilesB with
-    | nil => rfl
-    | cons t rest ih =>
-      simp only [List.map_cons, List.foldl_cons]
-      rw [this t List.mem_cons_self, PAcc.zero_add']
-      exact ih (fun t' ht' => this t' (List.mem_cons_of_mem _ ht'))
+  | none => rfl
   | some w =>
     simp only [hw] at key
     simp only []
